@@ -141,22 +141,30 @@ func hexDigit(v byte, upper bool) byte {
 	return 'a' + v - 10
 }
 
-// token: one symbolic unreserved byte in one of four spellings: literal, %HH, %25HH, %2525HH,
+// encByte: %HH of one (symbolic) byte, upper-case hex.
+func encByte(b byte) string {
+	return "%" + string([]byte{hexDigit(b>>4, true), hexDigit(b&15, true)})
+}
+
+// token: one symbolic unreserved byte in one of five spellings: literal, %HH, %25HH, %2525HH, and the
+// unevenly nested %25 %25hh %25hh (the '%' of the escape encoded once, each of its hex digits twice),
 // with the case of every hex letter symbolic.
 func token(alphabet string) string {
 	c := vnd.StrOver(1, alphabet)[0]
 	// the case of each hex letter is a concrete choice (a fork), so that every byte of the spelling
 	// depends on the one symbolic byte only
 	h := []byte{hexDigit(c>>4, vnd.Pick(2) == 1), hexDigit(c&15, vnd.Pick(2) == 1)}
-	switch vnd.Pick(4) {
+	switch vnd.Pick(5) {
 	case 0:
 		return string([]byte{c})
 	case 1:
 		return "%" + string(h)
 	case 2:
 		return "%25" + string(h)
+	case 3:
+		return "%2525" + string(h)
 	}
-	return "%2525" + string(h)
+	return "%25" + "%25" + encByte(h[0])[1:] + "%25" + encByte(h[1])[1:]
 }
 
 func tokens(n int, alphabet string) string {
